@@ -236,6 +236,10 @@ def units(w):
         return Unit(f"{file}::{func}", lambda it: ([], {}, {}), None, name=f"{file}::{func}[except clauses]", body=body, canary=False)
     U.append(host_unit("run.py", "main"))
     U.append(host_unit("repl.py", "main"))
+    # the parser builds a block from exactly its own statements, handlers and finally part: it never extends a block that a
+    # sub-parser returned (frame condition of contracts/parserproof.py, here for the two block-building functions)
+    from .parserproof import parser_units
+    U.extend(parser_units(w, "C05", only=("parse_block", "parse_bare_block")))
     return U
 
 
@@ -268,6 +272,13 @@ PROGS = [
     ("def n = 0; do do 1 finally n += 1 end; n catch all -1 end", "1"),
     ("do error 'unhandled' catch 'other' 0 end", "RT:'unhandled'"), ("error 12", "RT:12"),
     ("do error 'x' catch 'x' do error 'y' catch 'y' 'inner' end end", "'inner'"),
+    # a block whose only statement is a block: an error raised by the inner handler belongs to the outer block's handlers
+    ("def l = []; do do append(l, 'b'); error 1 catch 1 do append(l, 'h1'); error 2 end end catch 2 do append(l, 'h2'); 'outer' end end; l", "['b', 'h1', 'h2']"),
+    ("do do error 1 catch 1 error 2 end catch 2 'outer' end", "'outer'"),
+    ("do do error 1 catch 1 undefined_name end catch all 'outer' end", "'outer'"),
+    ("do do error 1 catch 1 error 1 end catch 1 'outer' end", "'outer'"),
+    ("do do 5 catch 1 6 end catch 2 7 end", "5"),
+    ("def l = []; do do error 1 catch 1 error 2 finally append(l, 'fi') end catch 2 append(l, 'o') finally append(l, 'fo') end; l", "['fi', 'o', 'fo']"),
 ]
 
 
